@@ -28,7 +28,7 @@ def check_from_rh(ctx, led, v, rule="C12.parse"):
         """node is inside a try whose handler for ValueError terminates by raising RHMalformed."""
         for t in G.enclosing_try_handlers(module, node):
             for h in t.handlers:
-                names = G.handler_names(h)
+                names = G.handler_names(h, module)
                 if any(n in names for n in exc_names) or names == ["*"] or "Exception" in names:
                     raises = [x for x in ast.walk(h) if isinstance(x, ast.Raise)]
                     if G.terminates(h.body) and raises and all(raise_class(ctx, module, r) == malformed for r in raises):
